@@ -154,21 +154,29 @@ def check_scale(ctx, rep):
 
 
 def check_apply(ctx, rep):
+    from ..ctorlift import CtorHarness
+    from ..uflmodel import node
+
     prog = ctx.prog
     fn = prog.get_function(AIS, "apply_integral_scaling")
     n = 0
     for cur, deg in itertools.product((None, 2, (2, 1)), (0, 3, (1, 2))):
         for nest in (0, 1, 2):
-            ip, dom, made = scaling_world(prog, 2)
+            H = CtorHarness(ctx)
+            ip = H.ip
             s = terminal("scale", (), "Coefficient")
             ip.overrides["compute_integrand_scaling_factor"] = lambda integral: (s, deg)
             f = terminal("f", (), "Coefficient")
-            cd_args = [Obj(f"cd{k}") for k in range(3)]
+            cd_args = [terminal(f"cd{k}", (), "Coefficient") for k in range(3)]
+
+            def CD(a, b, c, d):
+                # an opaque linear operator: its meaning is the symbol cd(<meaning of the operand>)
+                return node(T.scalar(sym.fn("cd", as_T(a).get())), "CoordinateDerivative", (a, b, c, d))
+
+            ip.class_models["CoordinateDerivative"] = CD
             integrand = f
-            CD = prog.get_class("ufl.differentiation.CoordinateDerivative")
             for _ in range(nest):
-                integrand = Obj("CoordinateDerivative", __class__=CD, ufl_operands=(integrand, *cd_args))
-            ip.class_models["CoordinateDerivative"] = lambda a, b, c, d: Obj("CoordinateDerivative", __class__=CD, ufl_operands=(a, b, c, d))
+                integrand = CD(integrand, *cd_args)
             md_in = {"quadrature_rule": "default"}
             if cur is not None:
                 md_in["estimated_polynomial_degree"] = cur
@@ -192,21 +200,23 @@ def check_apply(ctx, rep):
             if set(rec) != {"integrand", "metadata"}:
                 bad = f"reconstructs with {sorted(rec)} (only integrand and metadata may change)"
             else:
-                e = rec["integrand"]
+                e = as_T(rec["integrand"])
+                want = uflsem.t_mul(s, f)
+                for _ in range(nest):
+                    want = T.scalar(sym.fn("cd", want.get()))
                 depth = 0
-                while isinstance(e, Obj) and e.kind == "CoordinateDerivative":
-                    if tuple(e.attrs["ufl_operands"][1:]) != tuple(cd_args):
+                x = e
+                while x.tags.get("ufl_class") == "CoordinateDerivative":
+                    if tuple(x.tags["ufl_operands"][1:]) != tuple(cd_args):
                         bad = "coordinate-derivative operands changed"
-                    e = e.attrs["ufl_operands"][0]
+                    x = x.tags["ufl_operands"][0]
                     depth += 1
-                if depth != nest:
-                    bad = f"{depth} coordinate derivatives around the scaled integrand, expected {nest}"
-                elif not isinstance(e, T) or not equal_T(as_T(e), uflsem.t_mul(s, f), rng=ctx.rng)[0]:
-                    bad = "innermost integrand is not scale * integrand"
-                want = deg if cur is None else (tuple(a + b for a, b in zip(cur, deg)) if isinstance(cur, tuple) and isinstance(deg, tuple) else tuple(a + deg for a in cur) if isinstance(cur, tuple) else tuple(cur + b for b in deg) if isinstance(deg, tuple) else cur + deg)
+                if not bad and not equal_T(e, want, rng=ctx.rng)[0]:
+                    bad = f"the new integrand is not the scaled integrand inside all {nest} coordinate derivative(s): the factor must be differentiated with the integrand"
+                want_deg = deg if cur is None else (tuple(a + b for a, b in zip(cur, deg)) if isinstance(cur, tuple) and isinstance(deg, tuple) else tuple(a + deg for a in cur) if isinstance(cur, tuple) else tuple(cur + b for b in deg) if isinstance(deg, tuple) else cur + deg)
                 got = rec["metadata"].get("estimated_polynomial_degree")
-                if not bad and got != want:
-                    bad = f"estimated degree {got!r}, expected {want!r}"
+                if not bad and got != want_deg:
+                    bad = f"estimated degree {got!r}, expected {want_deg!r}"
                 if not bad and {k: v for k, v in rec["metadata"].items() if k != "estimated_polynomial_degree"} != {k: v for k, v in md_before.items() if k != "estimated_polynomial_degree"}:
                     bad = "other metadata entries changed"
                 if not bad and md_in != md_before:
